@@ -238,10 +238,15 @@ Inductive cf_result := CfOk (f : sfield) | CfPrevented | CfNotField.
 
 (* lit is the source text of the basic literal naming the field; the comparison is exact since fix 'match
    wire.Struct and wire.FieldsOf field names exactly' (it was strings.EqualFold before) *)
+(* blank fields can be neither set nor read: both selections skip them (fix 5dad1de; before it "*" selected them
+   and "_" named the first of them, and the output did not compile) *)
+Definition is_blank (f : sfield) : bool := String.eqb (sf_name f) "_".
+
 Fixpoint check_field (lit : string) (fields : list sfield) : cf_result :=
   match fields with
   | [] => CfNotField
-  | f :: r => if String.eqb (quote (sf_name f)) lit
+  | f :: r => if is_blank f then check_field lit r
+              else if String.eqb (quote (sf_name f)) lit
               then (if is_prevented (sf_tag f) then CfPrevented else CfOk f)
               else check_field lit r
   end.
@@ -251,7 +256,7 @@ Definition all_fields (lits : list string) : bool :=
   match lits with [l] => eq_fold (quote "*") l | _ => false end.
 
 Definition star_fields (fields : list sfield) : list sfield :=
-  filter (fun f => negb (is_prevented (sf_tag f))) fields.
+  filter (fun f => negb (is_prevented (sf_tag f)) && negb (is_blank f)) fields.
 
 (* ------------------------------------------------------------------ processValue's whitelist walk *)
 (* node kinds of go/ast as processValue tells them apart *)
